@@ -479,8 +479,10 @@ func verifC14_MultiFilterPackets() {
 	c1 := vConnect("c", false, "")
 	c1.script = append(c1.script, vSubscribePacket(1, []string{"a/1"}, []byte{1}))
 	bad := "zz/#/x"
-	kind := verifChoose("packetWithMalformedFilter", 4)
+	kind := verifChoose("packetWithMalformedFilter", 5)
 	switch kind {
+	case 4: // the rejected SUBSCRIBE lists a filter the client already holds
+		c1.script = append(c1.script, vSubscribePacket(2, []string{"a/1", bad}, []byte{0, 1}))
 	case 0:
 		c1.script = append(c1.script, vSubscribePacket(2, []string{"c/3", bad}, []byte{1, 1}))
 	case 1:
@@ -504,13 +506,19 @@ func verifC14_MultiFilterPackets() {
 		}
 		_, hasBad := sess.info.Topics[bad]
 		verifAssert(!hasBad, "malformed-filter-is-not-recorded-in-the-session")
-		if kind >= 2 {
+		if kind == 2 || kind == 3 {
 			verifAssert(!vRouted(b, "a/1", "c"), "unsubscribed-filter-is-not-routed-any-more")
 			verifCover("unsubscribe-listing-a-malformed-filter")
 		} else {
 			verifAssert(vRouted(b, "a/1", "c"), "earlier-subscription-survives-a-rejected-packet")
 			verifCover("subscribe-listing-a-malformed-filter")
 		}
+	}
+	// the connection ends: the network drops it, or the broker closes the client first (a
+	// pipeline asked for the disconnect) and the read loop then sees the closed socket
+	if connected && verifBool("closedByTheBrokerFirst") {
+		cl.close()
+		verifCover("closed-by-the-broker")
 	}
 	close(c1.drop)
 	verifQuiesce()
